@@ -1189,3 +1189,7 @@ mod tests {
         assert!(validator.validate(&node_id));
     }
 }
+
+#[cfg(kani)]
+#[path = "/verif/kani/close_group_validator_proofs.rs"]
+mod verif_proofs;
